@@ -30,7 +30,7 @@ META = {
         "quick": {"evaluations": 5000, "distinct_nontrivial": 800, "tables": {"route/mode": 1500, "route/prefuse-contracted": 600, "route/fuse-free-before-after": 600, "kind/fermionic": 1000, "feature/sole-free-leg-prefused": 60, "feature/misaligned": 300, "feature/many-legs": 500}},
         "thorough": {"evaluations": 200000, "distinct_nontrivial": 30000, "tables": {"route/prefuse-contracted": 30000, "route/fuse-free-before-after": 30000, "feature/sole-free-leg-prefused": 3000}},
     },
-    "wall": {"quick": 100, "thorough": 1700},
+    "wall": {"quick": 300, "thorough": 1700},
 }
 
 
